@@ -108,11 +108,11 @@ package trend
 //@ rel[C18] "price" ensures len(second(result)) == len(result) && (forall k :: 0 <= k && k < len(result) && (k >= 2 * t.Cci.Period - 2 ==> smaS(cciDevS(highs, lows, closings, t.Cci.Period), t.Cci.Period)[k - (2 * t.Cci.Period - 2)] != 0) ==> second(result)[k] == result[k])
 
 //@ func DemaStrategy.Compute
-//@ requires d.Dema1.Ema1.Period >= 1 && d.Dema1.Ema2.Period >= 1 && d.Dema2.Ema1.Period >= 1 && d.Dema2.Ema2.Period >= 1 && d.Dema1.IdlePeriod() <= d.Dema2.IdlePeriod() && consumed(c) == 0
+//@ requires d.Dema1.Ema1.Period >= 1 && d.Dema1.Ema2.Period >= 1 && d.Dema2.Ema1.Period >= 1 && d.Dema2.Ema2.Period >= 1 && consumed(c) == 0
 //@ guarantees[C06] "input-close" len(arg(Dema_Compute, 0, 0)) == len(c) && (forall k :: 0 <= k && k < len(c) ==> arg(Dema_Compute, 0, 0)[k] == c[k].Close)
 //@ guarantees[C06] "input-close" len(arg(Dema_Compute, 1, 0)) == len(c) && (forall k :: 0 <= k && k < len(c) ==> arg(Dema_Compute, 1, 0)[k] == c[k].Close)
-//@ guarantees[C06] "fast-above-slow-buys" forall k :: 0 <= k && k < len(res(Dema_Compute, 1)) ==> (res(Dema_Compute, 0)[k + d.Dema2.IdlePeriod() - d.Dema1.IdlePeriod()] > res(Dema_Compute, 1)[k] ==> result[k + d.Dema2.IdlePeriod()] == 1)
-//@ guarantees[C06] "slow-above-fast-sells" forall k :: 0 <= k && k < len(res(Dema_Compute, 1)) ==> (res(Dema_Compute, 1)[k] > res(Dema_Compute, 0)[k + d.Dema2.IdlePeriod() - d.Dema1.IdlePeriod()] ==> result[k + d.Dema2.IdlePeriod()] == 0 - 1)
+//@ guarantees[C06] "fast-above-slow-buys" d.Dema1.IdlePeriod() <= d.Dema2.IdlePeriod() ==> forall k :: 0 <= k && k < len(res(Dema_Compute, 1)) ==> (res(Dema_Compute, 0)[k + d.Dema2.IdlePeriod() - d.Dema1.IdlePeriod()] > res(Dema_Compute, 1)[k] ==> result[k + d.Dema2.IdlePeriod()] == 1)
+//@ guarantees[C06] "slow-above-fast-sells" d.Dema1.IdlePeriod() <= d.Dema2.IdlePeriod() ==> forall k :: 0 <= k && k < len(res(Dema_Compute, 1)) ==> (res(Dema_Compute, 1)[k] > res(Dema_Compute, 0)[k + d.Dema2.IdlePeriod() - d.Dema1.IdlePeriod()] ==> result[k + d.Dema2.IdlePeriod()] == 0 - 1)
 //@ ensures[C05] "len" len(c) >= (d.Dema2.IdlePeriod()) ==> len(result) == len(c)
 //@ ensures[C05] "len-short" len(result) >= len(c)
 //@ ensures[C05] "warmup-hold" forall kk :: 0 <= kk && kk < min((d.Dema2.IdlePeriod()), len(result)) ==> result[kk] == 0
@@ -434,13 +434,13 @@ package trend
 //@ use nlast_skip(res(CciStrategy_Compute), arg(ActionsToAnnotations, 0, 0), len(res(CciStrategy_Compute)) - len(arg(ActionsToAnnotations, 0, 0)))
 
 //@ func DemaStrategy.Report
-//@ requires d.Dema1.Ema1.Period >= 1 && d.Dema1.Ema2.Period >= 1 && d.Dema2.Ema1.Period >= 1 && d.Dema2.Ema2.Period >= 1 && d.Dema1.IdlePeriod() <= d.Dema2.IdlePeriod() && consumed(c) == 0 && (forall k :: 0 <= k && k < len(c) ==> c[k].Close > 0)
+//@ requires d.Dema1.Ema1.Period >= 1 && d.Dema1.Ema2.Period >= 1 && d.Dema2.Ema1.Period >= 1 && d.Dema2.Ema2.Period >= 1 && consumed(c) == 0 && (forall k :: 0 <= k && k < len(c) ==> c[k].Close > 0)
 //@ ensures[C14] "column-count" len(result.Columns) == 5
-//@ ensures[C14] "one-value-per-date" len(c) > (d.Dema2.IdlePeriod()) ==> (forall i :: 0 <= i && i < len(result.Columns) ==> len(col(result.Columns[i])) == len(result.Date))
-//@ ensures[C14] "dates" len(c) > (d.Dema2.IdlePeriod()) ==> len(result.Date) <= len(c) && (forall k :: 0 <= k && k < len(result.Date) ==> result.Date[k] == c[k + len(c) - len(result.Date)].Date)
-//@ ensures[C14] "close" len(c) > (d.Dema2.IdlePeriod()) ==> (forall k :: 0 <= k && k < len(result.Date) ==> colnum(result.Columns[0])[k] == c[k + len(c) - len(result.Date)].Close)
-//@ ensures[C14] "annotation" len(c) > (d.Dema2.IdlePeriod()) ==> (forall k :: 0 <= k && k < len(result.Date) ==> colstr(result.Columns[3])[k] == (normS(res(DemaStrategy_Compute), k + len(c) - len(result.Date)) == 0 - 1 ? "S" : (normS(res(DemaStrategy_Compute), k + len(c) - len(result.Date)) == 1 ? "B" : "")))
-//@ ensures[C14] "outcome" len(c) > (d.Dema2.IdlePeriod()) ==> (forall k :: 0 <= k && k < len(result.Date) ==> colnum(result.Columns[4])[k] == res(Outcome)[k + len(c) - len(result.Date)] * 100)
+//@ ensures[C14] "one-value-per-date" len(c) > max(d.Dema1.IdlePeriod(), d.Dema2.IdlePeriod()) ==> (forall i :: 0 <= i && i < len(result.Columns) ==> len(col(result.Columns[i])) == len(result.Date))
+//@ ensures[C14] "dates" len(c) > max(d.Dema1.IdlePeriod(), d.Dema2.IdlePeriod()) ==> len(result.Date) <= len(c) && (forall k :: 0 <= k && k < len(result.Date) ==> result.Date[k] == c[k + len(c) - len(result.Date)].Date)
+//@ ensures[C14] "close" len(c) > max(d.Dema1.IdlePeriod(), d.Dema2.IdlePeriod()) ==> (forall k :: 0 <= k && k < len(result.Date) ==> colnum(result.Columns[0])[k] == c[k + len(c) - len(result.Date)].Close)
+//@ ensures[C14] "annotation" len(c) > max(d.Dema1.IdlePeriod(), d.Dema2.IdlePeriod()) ==> (forall k :: 0 <= k && k < len(result.Date) ==> colstr(result.Columns[3])[k] == (normS(res(DemaStrategy_Compute), k + len(c) - len(result.Date)) == 0 - 1 ? "S" : (normS(res(DemaStrategy_Compute), k + len(c) - len(result.Date)) == 1 ? "B" : "")))
+//@ ensures[C14] "outcome" len(c) > max(d.Dema1.IdlePeriod(), d.Dema2.IdlePeriod()) ==> (forall k :: 0 <= k && k < len(result.Date) ==> colnum(result.Columns[4])[k] == res(Outcome)[k + len(c) - len(result.Date)] * 100)
 //@ ensures[C03] consumed(c) == len(c)
 //@ use nlast_hold(res(DemaStrategy_Compute), len(res(DemaStrategy_Compute)) - len(arg(ActionsToAnnotations, 0, 0)), len(res(DemaStrategy_Compute)) - len(arg(ActionsToAnnotations, 0, 0)))
 //@ use nlast_skip(res(DemaStrategy_Compute), arg(ActionsToAnnotations, 0, 0), len(res(DemaStrategy_Compute)) - len(arg(ActionsToAnnotations, 0, 0)))
